@@ -107,7 +107,7 @@ pub fn run_check(ctx: &Ctx) -> Report {
         "exploration",
         "programs of the `calls` profile (up to ~6 functions, 0-4 parameters, locals, direct recursion, functions stored / passed / returned, calls from every expression context, \
          arguments wrapped in a tracing identity so that evaluation order is visible) against the reference interpreter; directed programs: mutual recursion through pre-declared variables, \
-         functions in arrays, 255 arguments, recursion to depth 10 ... 70 000 with and without locals (expected value known arithmetically; beyond the machine's limits an error is accepted, U17). \
+         functions in arrays, 255 arguments, calls made from up to 280 000 bytes into straight-line code (the call returns to where it was made), recursion to depth 10 ... 70 000 with and without locals (expected value known arithmetically; beyond the machine's limits an error is accepted, U17). \
          non-trivial = two activations of the same function live at once, or a call made with >=1 pending operand; distinct by source text",
     );
     rep.assumptions.push("U3: calls pass exactly as many arguments as the function has parameters; U15: callees are identifiers or function literals".into());
@@ -181,6 +181,17 @@ pub fn run_check(ctx: &Ctx) -> Report {
         let (s, e) = deep_recursion_locals(k);
         check_directed_value(&mut rep, &s, e, 30_000_000);
     }
+    // calls made from far into the code (straight-line code has no 16-bit jump operands, so it can be longer than 64 KiB):
+    // the call must come back to where it was made, whatever the position. An error is accepted where a limit applies (U17).
+    for filler in ["ja; ", "1; ", "\"t\"; ", "[]; "] {
+        for n in [10usize, 2_000, 16_000, 21_840, 21_850, 32_750, 32_768, 32_780, 33_000, 40_000, 70_000] {
+            let body = filler.repeat(n);
+            // before and after the filler, nested, with operands pending, and from a function that was itself called from there
+            let src = format!("functie f(x) {{ x * 2 + 1 }} functie g(x) {{ f(x) + f(x + 1) }} stel a = f(1); {body}stel b = f(20) + f(1); stel c = [7, f(f(2)), 9]; stel d = g(3); a * 1000000 + b * 10000 + c[1] * 100 + d");
+            check_directed_value(&mut rep, &src, 3 * 1_000_000 + 44 * 10_000 + 11 * 100 + 16, 3_000_000);
+        }
+    }
+    rep.sample(json!({"directed-far-call": "functie f(x) { x * 2 + 1 } ... ; ja; ja; ... (33 000 times) ...; f(20) + f(1)"}));
     rep.sample(json!({"directed": deep_recursion(70_000).0}));
     rep
 }
